@@ -70,7 +70,7 @@ package soyhtml
 // cancels autoescaping; otherwise it issues exactly one raw write. Nothing else
 // is written by evalPrint itself.
 //@ func (*state).evalPrint
-//@   like renderFn
+//@   like stateMethod
 //@   props C03 C08 C09
 //@   nosafety
 //@   ghost mode ast.AutoescapeType = 0
@@ -150,7 +150,7 @@ package soyhtml
 // render closure returns normally after one of its own writes failed and none
 // issues a further write after a failure.
 //@ func (*state).walk
-//@   like renderFn
+//@   like stateMethod
 //@   props C12 C08 C09
 //@   nosafety
 //@   modifies *
@@ -178,7 +178,7 @@ package soyhtml
 //@     noterm
 
 //@ func (*state).evalMsgParts
-//@   like renderFn
+//@   like stateMethod
 //@   props C12 C08 C09
 //@   nosafety
 //@   modifies *
@@ -260,7 +260,7 @@ package soyhtml
 // sub-expression the state again points at the enclosing command, so the error
 // built by the entry state names the outermost failing command.
 //@ func (*state).eval
-//@   like renderFn
+//@   like stateMethod
 //@   props C19 C08 C09
 //@   nosafety
 //@   modifies *
@@ -278,14 +278,21 @@ package soyhtml
 // Registry.Add maintains); every panic raised afterwards reaches errRecover,
 // which is proved above to complete and to assign a non-nil error.
 //@ func (Renderer).Execute
-//@   like renderFn
 //@   props C06 C08 C09
+//@   modifies *
+//@   preserves F!github.com/robfig/soy/ast.* F!github.com/robfig/soy/template.* E!Iface E!Int E!Str E!|S!github.com/robfig/soy/template.* G!github.com/robfig/soy/* F!github.com/robfig/soy/soyhtml.Tofu!* F!github.com/robfig/soy/soyhtml.Renderer!*
+//@   mapwrites owned
+//@   at entry set renderBase = allocmark()
+//@   at call (*state).walk#0 assert[owned-frame-above-caller-data;C08] scopeOK(arg0.context) && len(arg0.context) >= 2
 //@   recoverby (*state).errRecover
 //@   requires[registry-built-by-Add] t.tofu != nil && t.tofu.registry != nil ==> registryOK(t.tofu.registry)
 
 //@ func EvalExpr
-//@   like renderFn
-//@   props C06 C08 C09
+//@   props C06
+//@   modifies *
+//@   preserves F!github.com/robfig/soy/ast.* F!github.com/robfig/soy/template.* E!Iface E!Int E!Str E!|S!github.com/robfig/soy/template.* G!github.com/robfig/soy/* F!github.com/robfig/soy/soyhtml.Tofu!* F!github.com/robfig/soy/soyhtml.Renderer!*
+//@   mapwrites owned
+//@   at entry set renderBase = allocmark()
 //@   recoverby (*state).errRecover
 
 // ---------------------------------------------------------------------------
@@ -302,47 +309,110 @@ package soyhtml
 // same frame.
 //@ functype *
 //@   modifies *
-//@   preserves F!github.com/robfig/soy/ast.* F!github.com/robfig/soy/template.* E!Iface E!Int E!Str E!|S!github.com/robfig/soy/template.* G!github.com/robfig/soy/*
+//@   preserves F!github.com/robfig/soy/ast.* F!github.com/robfig/soy/template.* E!Iface E!Int E!Str E!|S!github.com/robfig/soy/template.* G!github.com/robfig/soy/* F!github.com/robfig/soy/soyhtml.Tofu!* F!github.com/robfig/soy/soyhtml.Renderer!* F!github.com/robfig/soy/soyhtml.state!* E!|S!github.com/robfig/soy/soyhtml.scopeframe| M!* MD!* ML
 
 //@ functype renderFn
 //@   params s
 //@   props C08 C09
+//@   requires[render-started] renderBase <= allocmark()
 //@   modifies *
-//@   preserves F!github.com/robfig/soy/ast.* F!github.com/robfig/soy/template.* E!Iface E!Int E!Str E!|S!github.com/robfig/soy/template.* G!github.com/robfig/soy/*
-//@ func (*state).evalMsg
+//@   preserves F!github.com/robfig/soy/ast.* F!github.com/robfig/soy/template.* E!Iface E!Int E!Str E!|S!github.com/robfig/soy/template.* G!github.com/robfig/soy/* F!github.com/robfig/soy/soyhtml.Tofu!* F!github.com/robfig/soy/soyhtml.Renderer!* F!github.com/robfig/soy/soyhtml.state!* E!|S!github.com/robfig/soy/soyhtml.scopeframe| M!* MD!* ML
+//@   mapwrites owned
+
+// Caller data (C08): a map is "owned" by the render when it was allocated
+// after the render started (ghost renderBase = allocation watermark at the
+// entry of Execute / EvalExpr). Every map the interpreter writes is owned:
+// the data map, the injected data and anything reachable from them are never
+// written. The scope keeps an owned map in its top frame (scopeOK), which is
+// what set() writes to; Execute and evalCall establish it with enter()/push()
+// before any binding is made.
+//@ gghost renderBase int
+//@ pred owned(m data.Map) = m >= renderBase
+//@ pred scopeOK(sc scope) = len(sc) >= 1 && sc[len(sc)-1].vars != nil && owned(sc[len(sc)-1].vars)
+//@ functype stateMethod
+//@   params s
+//@   props C08 C09
+//@   requires[render-started] renderBase <= allocmark()
+//@   modifies *
+//@   preserves F!github.com/robfig/soy/ast.* F!github.com/robfig/soy/template.* E!Iface E!Int E!Str E!|S!github.com/robfig/soy/template.* G!github.com/robfig/soy/* F!github.com/robfig/soy/soyhtml.Tofu!* F!github.com/robfig/soy/soyhtml.Renderer!*
+//@   mapwrites owned
+
+//@ func newScope
 //@   like renderFn
+//@   ensures len(result) == 1 && cap(result) == 1 && fresh(result) && result[0].vars == m && !result[0].entered
+//@ func (*scope).push
+//@   props C08 C09
+//@   requires[render-started] renderBase <= allocmark()
+//@   modifies *s, (*s)[_]
+//@   mapwrites owned
+//@   nosafety
+//@   ensures[pushes-owned-frame] scopeOK(*s) && len(*s) == old(len(*s)) + 1 && fresh((*s)[len(*s)-1].vars)
+//@   ensures[realloc-when-full] old(len(*s) == cap(*s)) ==> fresh(*s) && unchangedarray(*s)
+//@ func (*scope).pop
+//@   props C08 C09
+//@   modifies *s
+//@   nosafety
+//@   ensures[drops-top-frame] len(*s) == old(len(*s)) - 1 && sameslice((*s), old((*s)[:len(*s)-1]))
+//@ func (scope).set
+//@   props C08 C09
+//@   modifies s[len(s)-1].vars[_]
+//@   mapwrites owned
+//@   nosafety
+//@   requires[top-frame-owned;C02] scopeOK(s)
+//@ func (scope).lookup
+//@   like renderFn
+//@   nosafety
+//@   loop 0
+//@     noterm
+//@ func (scope).alldata
+//@   like renderFn
+//@   nosafety
+//@   ensures[capacity-capped] len(result) == cap(result) && len(result) >= 1
+//@   loop 0
+//@     noterm
+//@ func (*scope).enter
+//@   props C08 C09
+//@   requires[render-started] renderBase <= allocmark()
+//@   modifies *s, (*s)[_]
+//@   mapwrites owned
+//@   nosafety
+//@   requires[non-empty;C02] len(*s) >= 1
+//@   ensures[pushes-owned-frame] scopeOK(*s) && len(*s) == old(len(*s)) + 1
+//@ func (*state).evalMsg
+//@   like stateMethod
 //@   nosafety
 //@ func (*state).findPluralNode
-//@   like renderFn
+//@   like stateMethod
 //@   nosafety
 //@ func (*state).walkPlural
-//@   like renderFn
+//@   like stateMethod
 //@   nosafety
 //@ func (*state).walkMsgBody
-//@   like renderFn
+//@   like stateMethod
 //@   nosafety
 //@ func (*state).evalCall
-//@   like renderFn
+//@   like stateMethod
 //@   nosafety
+//@   at call (*state).walk#0 assert[callee-binds-in-owned-frame;C08] scopeOK(arg0.context)
 //@ func (*state).renderBlock
-//@   like renderFn
+//@   like stateMethod
 //@   nosafety
 //@ func (*state).evalFunc
-//@   like renderFn
+//@   like stateMethod
 //@   nosafety
 //@   loop 0
 //@     invariant fresh(args) && !isnil(args)
 //@ func (*state).evalDataRef
-//@   like renderFn
+//@   like stateMethod
 //@   nosafety
 //@ func (*state).eval2def
-//@   like renderFn
+//@   like stateMethod
 //@   nosafety
 //@ func (*state).evaldef
-//@   like renderFn
+//@   like stateMethod
 //@   nosafety
 //@ func (*state).at
-//@   like renderFn
+//@   like stateMethod
 //@   nosafety
 
 // The builtin functions and directives (the default contents of the registries)
